@@ -223,7 +223,7 @@ func (e *env) doZuc(stream string, k, iv []byte, n uint32) {
 	r := e.r
 	id := r.NextID()
 	in := map[string]interface{}{"k": hk.Hex(k), "iv": hk.Hex(iv), "n": n}
-	k0, iv0 := append([]byte{}, k...), append([]byte{}, iv...)
+	k0, iv0 := hk.Exact(k), hk.Exact(iv)
 	var out []uint32
 	panicked, pv := hk.Catch(func() { out = zuc.Zuc(k, iv, n) })
 	obs := "OPanic"
@@ -265,7 +265,7 @@ func (e *env) doNea3(stream string, ck [16]byte, count uint32, bearer, dir uint8
 	r := e.r
 	id := r.NextID()
 	in := map[string]interface{}{"ck": hk.Hex(ck[:]), "count": count, "bearer": bearer, "direction": dir, "ibs": hk.Hex(ibs), "length": length}
-	ibs0 := append([]byte{}, ibs...)
+	ibs0 := hk.Exact(ibs)
 	var out []byte
 	var err error
 	panicked, pv := hk.Catch(func() { out, err = security.NEA3(ck, count, bearer, dir, ibs, length) })
@@ -311,7 +311,7 @@ func (e *env) doNia3(stream string, ik [16]byte, count uint32, bearer, dir uint8
 	r := e.r
 	id := r.NextID()
 	in := map[string]interface{}{"ik": hk.Hex(ik[:]), "count": count, "bearer": bearer, "direction": dir, "msg": hk.Hex(msg), "length": length}
-	msg0 := append([]byte{}, msg...)
+	msg0 := hk.Exact(msg)
 	var out []byte
 	var err error
 	panicked, pv := hk.Catch(func() { out, err = security.NIA3(ik, count, bearer, dir, msg, length) })
@@ -354,7 +354,7 @@ func (e *env) doNia3(stream string, ik [16]byte, count uint32, bearer, dir uint8
 
 // enc3 runs NASEncrypt on a copy and returns the resulting payload
 func enc3(key [16]byte, count uint32, bearer, dir uint8, p []byte) (out []byte, err error, panicked bool, pv interface{}) {
-	out = append([]byte{}, p...)
+	out = hk.Exact(p)
 	panicked, pv = hk.Catch(func() { err = security.NASEncrypt(security.AlgCiphering128NEA3, key, count, bearer, dir, out) })
 	return
 }
@@ -441,7 +441,7 @@ func (e *env) doMac(stream string, key [16]byte, count uint32, bearer, dir uint8
 	r := e.r
 	id := r.NextID()
 	in := map[string]interface{}{"alg": 3, "key": hk.Hex(key[:]), "count": count, "bearer": bearer, "direction": dir, "msg": hk.Hex(msg)}
-	msg0 := append([]byte{}, msg...)
+	msg0 := hk.Exact(msg)
 	key0 := key
 	var out []byte
 	var err error
@@ -800,7 +800,7 @@ func massSweep(r *hk.Run, e *env) {
 				n++
 				if len(got) != 2 || got[0] != want[0] || got[1] != want[1] {
 					select {
-					case ch <- bad{append([]byte{}, key...), append([]byte{}, iv...), got, want}:
+					case ch <- bad{hk.Exact(key), hk.Exact(iv), got, want}:
 					default:
 					}
 				}
